@@ -370,6 +370,93 @@ func TestVerifC03ObfsGecko(t *testing.T) {
 			canaryNo++
 			vfC03GeckoCanary(r, entry, r.SeqID(id), srng, canaryNo, feed)
 		}
+		// aggregate: COMPLETE well-formed messages whose chunks are as large as a datagram allows (sum up to
+		// ~16 KiB, far above the 2 KiB packet buffer), shuffled with duplicates, read into buffers of
+		// different sizes; then 50 sources x 8 messages x 8 big chunks all pending at once (~5 MB of
+		// pending chunks) before they complete.
+		if !panicked && i%12 == 1 && !flood {
+			maxChunk := geckoBufferSize - geckoHeaderSize
+			if fullStack {
+				maxChunk -= smSaltLen
+			}
+			for ai, c := range [][2]int{{2, maxChunk}, {8, maxChunk}, {8, maxChunk - 1}, {5, 1000}, {8, 1}, {3, 0}, {8, 600}, {4, 1024}} {
+				total, size := c[0], c[1]
+				src := vfC03Src(0x900000 + 16*i + ai)
+				var chunks [][]byte
+				var whole []byte
+				for ci := 0; ci < total; ci++ {
+					ch := vfC03Fill(srng, 3, size)
+					if len(ch) > 0 {
+						ch[0] = byte(ci)
+					}
+					chunks = append(chunks, ch)
+					whole = append(whole, ch...)
+				}
+				order := srng.Perm(total)
+				order = append(order[:total/2], append([]int{order[0]}, order[total/2:]...)...) // one duplicate
+				bufLen := []int{geckoBufferSize, 1200, 65535, 1}[ai%4]
+				var got []byte
+				delivered := 0
+				for _, ci := range order {
+					pkt := vfC03GeckoFrame(0x80, byte(ai), byte(ci), byte(total), 0, 0, chunks[ci])
+					panicked = r.DoObj(entry, r.SeqID(id), pkt, func(b []byte) {
+						fake.q = []vfC03Pkt{{wire(b), src}}
+						p := make([]byte, bufLen)
+						if n, _, err := conn.ReadFrom(p); err == nil {
+							delivered++
+							got = p[:n]
+						}
+					})
+					if panicked {
+						break
+					}
+				}
+				if panicked {
+					break
+				}
+				k.Count("ev_aggregate_messages", 1)
+				want := whole
+				if len(want) > bufLen {
+					want = want[:bufLen]
+				}
+				if delivered > 0 && (delivered != 1 || !bytes.Equal(got, want)) {
+					r.ServiceStopped(entry, r.SeqID(id), map[string]any{"chunks": total, "chunk_size": size, "reader_buffer": bufLen},
+						"complete message of %d chunks x %d bytes: %d deliveries, got %d bytes that differ from the message (cut to the reader's %d-byte buffer)", total, size, delivered, len(got), bufLen)
+				}
+			}
+			if !panicked {
+				const nSrc, nMsg, nChunk = 50, geckoMaxPerSource, 8
+				deliveredAll, wrong := 0, 0
+				for ci := 0; ci < nChunk && !panicked; ci++ {
+					for sidx := 0; sidx < nSrc && !panicked; sidx++ {
+						for mi := 0; mi < nMsg && !panicked; mi++ {
+							ch := vfC03Fill(srng, 3, maxChunk-10)
+							ch[0], ch[1], ch[2] = byte(sidx), byte(mi), byte(ci)
+							pkt := vfC03GeckoFrame(0x80, byte(100+mi), byte(ci), nChunk, 0, 0, ch)
+							panicked = r.DoObj(entry, r.SeqID(id), pkt, func(b []byte) {
+								fake.q = []vfC03Pkt{{wire(b), vfC03Src(0xa00000 + sidx)}}
+								p := make([]byte, 65535)
+								if n, _, err := conn.ReadFrom(p); err == nil {
+									deliveredAll++
+									if n != nChunk*(maxChunk-10) || p[0] != byte(sidx) || p[1] != byte(mi) || p[2] != 0 {
+										wrong++
+									}
+								}
+							})
+						}
+					}
+				}
+				k.Count("ev_aggregate_interleaved_delivered", int64(deliveredAll))
+				if !panicked && (wrong > 0 || deliveredAll != nSrc*nMsg) {
+					r.ServiceStopped(entry, r.SeqID(id), map[string]any{"sources": nSrc, "messages_per_source": nMsg, "chunks": nChunk},
+						"%d sources x %d interleaved messages of %d big chunks: %d delivered (%d wrong), want %d", nSrc, nMsg, nChunk, deliveredAll, wrong, nSrc*nMsg)
+				}
+			}
+			if !panicked {
+				canaryNo++
+				vfC03GeckoCanary(r, entry, r.SeqID(id), srng, canaryNo, feed)
+			}
+		}
 		if g, ok := conn.(*geckoPacketConn); ok {
 			g.mu.Lock()
 			k.Count("ev_reassembly_entries_at_end", int64(len(g.reassembly)))
